@@ -1,5 +1,6 @@
 #!/bin/bash
 # usage: tools/seedconfirm.sh <seed-dir> <demo-file-in-seed-dir> <target-path-in-repo> <run-regexp>
+# (SEED_GOTEST_FLAGS, e.g. -race, is passed to the demonstration's go test.)
 # Confirms in a scratch worktree: (1) demo passes on the pristine tree, (2) with the patch the tree builds and
 # the demo fails, (3) with the patch (demo removed) every stable-pass test of the baseline still passes.
 set -u
@@ -11,7 +12,7 @@ mkdir -p /tmp/seedrun
 git -C /repo worktree remove --force "$wt" >/dev/null 2>&1
 git -C /repo worktree add --detach "$wt" HEAD -q || exit 2
 pkg=./$(dirname "$target")
-run() { (cd "$wt" && unshare -n sh -c "ip link set lo up; go test -vet=off -count=1 -run '$rx' $pkg" 2>&1 | tail -40); }
+run() { (cd "$wt" && unshare -n sh -c "ip link set lo up; go test ${SEED_GOTEST_FLAGS:-} -vet=off -count=1 -run '$rx' $pkg" 2>&1 | tail -40); }
 cp "$sd/$demo" "$wt/$target"
 out1=$(run); echo "$out1" | grep -qE "^ok" && r1=PASS || r1=FAIL
 git -C "$wt" apply "$sd/patch.diff" || { echo "PATCH DOES NOT APPLY"; git -C /repo worktree remove --force "$wt"; exit 2; }
